@@ -101,6 +101,10 @@ def eval_cases(mod, cases, use_model=True):
                     m = canon(mod.model(case, resp[a:a + n]))
                 except Exception as e:
                     m = {"model-glue-error": repr(e)[:200], "raw": resp[a:a + n]}
+                if isinstance(m, dict) and m.get("skip"):
+                    out["model_evals"] -= 1
+                    out["stats"]["model-skip(outside modelled domain)"] += 1
+                    continue
                 if m != r and len(out["disagreements"]) < 50:
                     out["disagreements"].append(dict(case=case, impl=r, model=m))
                 elif m != r:
